@@ -1,7 +1,7 @@
 (* C01 - the boolean oracle of Model.v (`consistentb`, the store part of `satisfies`) is sound for
    the declarative `consistent` the theorems of Properties/C01.v speak about. *)
 From Coq Require Import List NArith PeanoNat Bool Lia ZifyNat ZifyN ZifyBool.
-From V Require Import Lib.Check C01_Command.Model C01_Command.MapLemmas.
+From V Require Import Lib.Check C01_Command.Model C01_Command.MapLemmas C01_Command.Ideal C01_Command.Proofs.
 Import ListNotations.
 Local Open Scope N_scope.
 
@@ -72,14 +72,14 @@ Proof.
   destruct (k =? a); [apply nget_map_vals | exact IH].
 Qed.
 
-Theorem consistentb_sound pl wl rc pj :
-  consistentb pl wl rc pj = true -> consistent (mkStore pl wl rc pj).
+Theorem consistentb_sound np pl wl rc pj :
+  consistentb np pl wl rc pj = true -> consistent np (mkStore pl wl rc pj).
 Proof.
   unfold consistentb, consistent. cbn [plog wlog recs proj]. set (es := map snd pl).
   intros H. repeat (apply andb_prop in H; destruct H as [H ?]).
-  rename H into Hk, H2 into Hw, H1 into Hr, H0 into Hj.
+  rename H into Hk, H3 into Hw, H2 into Hr, H1 into Hj.
   apply (list_eqb_eq N.eqb N.eqb_eq) in Hk. apply (n2map_eqb_eq rec_eqb rec_eqb_eq) in Hr.
-  apply (n2map_eqb_eq N.eqb N.eqb_eq) in Hj. rewrite forallb_forall in Hw.
+  rewrite forallb_forall in Hw. rewrite forallb_forall in Hj.
   assert (Hws : forall ws, inner wl ws = index_from 1 (ws_events ws es)
                         /\ map e_woff (ws_events ws es) = nseq 1 (length (ws_events ws es))).
   { intros ws. destruct (in_dec N.eq_dec ws (map e_ws es ++ map fst wl)) as [Hin|Hnin].
@@ -94,11 +94,14 @@ Proof.
     destruct (N.ltb_spec w 1); [lia | reflexivity].
   - intros ws. apply Hws.
   - intros ws id. rewrite Hr. reflexivity.
-  - intros ws w. rewrite Hj. apply get2_map_vals.
+  - intros j Hlt ws w. assert (Hin : In j (nseq 0 (N.to_nat np))) by (apply nseq_in; lia).
+    specialize (Hj j Hin). apply (n2map_eqb_eq N.eqb N.eqb_eq) in Hj.
+    unfold get3. rewrite Hj. apply get2_map_vals.
 Qed.
 
 Theorem satisfies_consistent t :
-  satisfies t = true -> consistent (mkStore (t_plog t) (t_wlog t) (t_recs t) (t_proj t)).
+  satisfies t = true ->
+  consistent (t_np t) (mkStore (t_plog t) (t_wlog t) (t_recs t) (t_proj t)).
 Proof.
   unfold satisfies. intros H. do 3 (apply andb_prop in H; destruct H as [H _]).
   apply consistentb_sound; exact H.
